@@ -1,5 +1,6 @@
 // C11: static_integer / static_number are never silently wrong
 #include "vh.h"
+#include "vhf.h"
 using namespace cnl;
 using namespace vh;
 static const bool vh_strict_on = (vh::strict = true);
@@ -135,5 +136,31 @@ void go(Rng& rng)
         pri(a);
         fputs(" => ", stdout);
         VH_RUN(([&] { C c = x; return c; }()), print_sn)
+    }
+}
+
+
+// construction from floating point: rounding conversion below the overflow layer
+template<class R, class O, int D, int E, class F>
+void fromf(Rng& rng)
+{
+    using A = static_number<D, E, R, O>;
+    std::vector<F> fv;
+    F unit = std::ldexp(F(1), E);
+    auto nb = [&](F x) {
+        vhf::push_f(fv, x);
+        vhf::push_f(fv, std::nextafter(x, std::numeric_limits<F>::infinity()));
+        vhf::push_f(fv, std::nextafter(x, -std::numeric_limits<F>::infinity()));
+    };
+    for (I a : snvals<D>(rng, 8 * scale_from_env()))
+        for (F o : {F(0), F(0.25), F(0.5), F(0.75)}) {
+            nb(F((F(a) + o) * unit));
+            nb(F((F(a) - o) * unit));
+        }
+    for (F f : fv) {
+        printf("C11 fcvt %s %s %d %d %s ", TagN<R>::name().c_str(), TagN<O>::name().c_str(), D, E, vhf::FN<F>::name);
+        vhf::prf(f);
+        fputs(" => ", stdout);
+        VH_RUN(A{f}, print_sn)
     }
 }
